@@ -1,7 +1,7 @@
 """C06 — every diagnostic points into the element, line and columns that caused it."""
 import os, re, subprocess
 import xml.etree.ElementTree as ET
-import vlib
+import vlib, crashgen
 
 IDENT = re.compile(r'^[A-Za-z_][A-Za-z0-9_]*$')
 KEYWORDS = {'int', 'bool', 'clock', 'chan', 'const', 'void', 'return', 'true', 'false', 'system', 'forall', 'if', 'else', 'for', 'while', 'broadcast', 'urgent', 'struct', 'typedef', 'double'}
@@ -117,7 +117,7 @@ def lexemes(text):
     return out, toks
 
 
-FAULTS = ['undeclared', 'dropped-operand', 'unbalanced', 'stray', 'type-error', 'side-effect', 'unterminated-comment']
+FAULTS = ['undeclared', 'dropped-operand', 'unbalanced', 'stray', 'type-error', 'side-effect', 'unterminated-comment', 'free-parameter']
 
 
 def inject(tokens, kind, fault, pos, rng):
@@ -158,6 +158,12 @@ def inject(tokens, kind, fault, pos, rng):
         return t
     if fault == 'unterminated-comment':
         t.insert(pos, '/*')
+        return t
+    if fault == 'free-parameter':
+        # the system line lists a template whose parameters cannot be enumerated (an unbounded integer): a type error of the system block
+        if 'system' not in t or pos <= t.index('system') or not is_id:
+            return None
+        t[pos] = 'T1'
         return t
     return None
 
@@ -210,6 +216,17 @@ def check(run):
             if n2 == 't1guard': t3 = 'i == s && z > 1 && f ( k ) > 0'.split()
             texts[n2] = layout(t3, rng, style)
         cases.append(dict(block='t1inv', path='/nta/template[1]/location[1]/label[1]', kind='warning-model', fault='warnings', pos=0, texts=texts, style=style, xml=render(texts), tokens=[]))
+    # a reference to a type that cannot be referenced, in a function's and in a template's parameter list: a diagnostic on a type prefix
+    for bname, bpath, extra in (('gdecl', 'declaration', ' void fq ( void & q ) { }'), ('t1param', 'template[1]/parameter', ' , void & w')):
+        blocks = base_blocks(rng)
+        texts = {n: ' '.join(t) + (extra if n == bname else '') for n, _, _, t in blocks}
+        cases.append(dict(block=bname, path='/nta/' + bpath, kind='decl', fault='void-reference', pos=0, texts=texts, style='plain', xml=render(texts), tokens=[]))
+    # scenario charts (<lsc> elements): an undeclared identifier in each of their text blocks
+    for bname, bpath, old, new in (('lsc-parameter', 'lsc[1]/parameter', '<parameter>int a</parameter>', '<parameter>int a, zz9 q</parameter>'), ('lsc-declaration', 'lsc[1]/declaration', '<declaration>int v;</declaration>', '<declaration>int v = zz9;</declaration>'),
+                                   ('lsc-condition', 'lsc[1]/condition[1]/label[1]', 'x &gt;= a', 'zz9 &gt;=\n a'), ('lsc-update', 'lsc[1]/update[1]/label[1]', 'g = 1', 'g =\n zz9'),
+                                   ('lsc-message', 'lsc[1]/message[1]/label[1]', '>m1</label></message>', '>zz9</label></message>')):
+        if old in crashgen.LSC_DOC:
+            cases.append(dict(block=bname, path='/nta/' + bpath, kind='lsc', fault='lsc-undeclared', pos=0, texts={}, style='plain', xml=crashgen.LSC_DOC.replace(old, new, 1), tokens=[]))
     # the fault-free model must be accepted (otherwise the generator is wrong)
     blocks = base_blocks(rng)
     clean = render({n: ' '.join(t) for n, _, _, t in blocks})
@@ -240,6 +257,11 @@ def check(run):
         real_errs = [e for e in errs if e['kind'] == 'error']
         hist[c['fault']] = hist.get(c['fault'], 0) + 1
         in_block = 0
+        if any('/lscTemplate[' in e['path'] for e in errs):
+            run.fail('diagnostics of a scenario chart carry the path %s: the element is <lsc>, the path selects nothing in the input' % next(e['path'] for e in errs if '/lscTemplate[' in e['path']),
+                     dict(xml=c['xml'], block=c['block'], errors=[e['path'] for e in errs][:3]), shape='lsc-path:' + c['block'])
+            for e in errs:
+                e['path'] = e['path'].replace('/lscTemplate[', '/lsc[')          # the remaining checks go on against the element that is meant
         for e in errs:
             nerr += 1
             what = None
